@@ -37,13 +37,13 @@ func IsHelperOp(w string) bool {
 func ArgSym(g gx.G, w string) grammar.Symbol {
 	switch {
 	case strings.HasPrefix(w, Q):
-		return grammar.Terminal(w[len(Q):])
+		return grammar.Terminal(NameOf(w))
 	case strings.HasPrefix(w, "^"):
-		return grammar.NonTerminal(w[1:])
+		return grammar.NonTerminal(NameOf(w))
 	case g.IsNonTerm(w):
-		return grammar.NonTerminal(w)
+		return grammar.NonTerminal(NameOf(w))
 	}
-	return grammar.Terminal(w)
+	return grammar.Terminal(NameOf(w))
 }
 
 func argBody(g gx.G, ws []string) grammar.String[grammar.Symbol] {
@@ -58,25 +58,26 @@ func tname(g gx.G, t grammar.Terminal) string {
 	if t == grammar.Endmarker {
 		return t.Name() // "$"
 	}
-	if g.IsNonTerm(string(t)) {
-		return Q + string(t)
+	if w := WordOf(string(t)); g.IsNonTerm(w) {
+		return Q + w
+	} else {
+		return w
 	}
-	return string(t)
 }
 
 func showProdQ(g gx.G, p *grammar.Production) string {
 	if len(p.Body) == 0 {
-		return string(p.Head) + "→ε"
+		return WordOf(string(p.Head)) + "→ε"
 	}
 	ws := make([]string, len(p.Body))
 	for i, s := range p.Body {
 		if t, ok := s.(grammar.Terminal); ok {
 			ws[i] = tname(g, t)
 		} else {
-			ws[i] = s.Name()
+			ws[i] = WordOf(s.Name())
 		}
 	}
-	return string(p.Head) + "→" + strings.Join(ws, " ")
+	return WordOf(string(p.Head)) + "→" + strings.Join(ws, " ")
 }
 
 func showBodyQ(g gx.G, b grammar.String[grammar.Symbol]) string {
@@ -88,7 +89,7 @@ func showBodyQ(g gx.G, b grammar.String[grammar.Symbol]) string {
 		if t, ok := s.(grammar.Terminal); ok {
 			ws[i] = tname(g, t)
 		} else {
-			ws[i] = s.Name()
+			ws[i] = WordOf(s.Name())
 		}
 	}
 	return strings.Join(ws, " ")
@@ -249,7 +250,7 @@ func libPred(name string) func(*grammar.Production) bool {
 	case "false":
 		return func(*grammar.Production) bool { return false }
 	}
-	return func(p *grammar.Production) bool { return string(p.Head) == strings.TrimPrefix(name, "head=") }
+	return func(p *grammar.Production) bool { return string(p.Head) == NameOf(strings.TrimPrefix(name, "head=")) }
 }
 
 func prodKeyP(p gx.P) string {
